@@ -22,6 +22,11 @@ extern "C"
     void *igv_bsearch(const void *, const void *, size_t, size_t, int (*)(const void *, const void *));
     int igv_rand(void);
     void igv_srand(unsigned);
+    int64_t igv_strtoq(const char *, char **, int);
+    uint64_t igv_strtouq(const char *, char **, int);
+    void *igv_upper_bound(const void *, const void *, size_t, size_t, int (*)(const void *, const void *));
+    void *igv_lower_bound(const void *, const void *, size_t, size_t, int (*)(const void *, const void *));
+    int igv_rand_r(unsigned int *);
 }
 
 using namespace hv;
@@ -216,26 +221,47 @@ static void run_op(const std::vector<std::string> &w, const std::string &, out &
         char *end = (char *)1, *hend = 0;
         uint64_t v, hv_;
         bool sg = false;
+        // errno: the host call starts from 0, the call under test from a
+        // sentinel, so that "not written" and "written with 0" are told apart
+        const int SENT = 9999;
+        auto call = [&](char **ep) -> uint64_t {
+            errno = SENT;
+            if (fn == "l") return (uint64_t)igv_strtol(s, ep, base);
+            if (fn == "ul") return igv_strtoul(s, ep, base);
+            if (fn == "ll") return (uint64_t)igv_strtoll(s, ep, base);
+            if (fn == "ull") return igv_strtoull(s, ep, base);
+            if (fn == "imax") return (uint64_t)igv_strtoimax(s, ep, base);
+            if (fn == "umax") return igv_strtoumax(s, ep, base);
+            if (fn == "q") return (uint64_t)igv_strtoq(s, ep, base);
+            return igv_strtouq(s, ep, base);
+        };
         errno = 0;
-        if (fn == "l") { v = (uint64_t)igv_strtol(s, &end, base); hv_ = (uint64_t)strtol(s, &hend, base); sg = true; }
-        else if (fn == "ul") { v = igv_strtoul(s, &end, base); hv_ = strtoul(s, &hend, base); }
-        else if (fn == "ll") { v = (uint64_t)igv_strtoll(s, &end, base); hv_ = (uint64_t)strtoll(s, &hend, base); sg = true; }
-        else if (fn == "ull") { v = igv_strtoull(s, &end, base); hv_ = strtoull(s, &hend, base); }
-        else if (fn == "imax") { v = (uint64_t)igv_strtoimax(s, &end, base); hv_ = (uint64_t)strtoimax(s, &hend, base); sg = true; }
-        else if (fn == "umax") { v = igv_strtoumax(s, &end, base); hv_ = strtoumax(s, &hend, base); }
+        if (fn == "l") { hv_ = (uint64_t)strtol(s, &hend, base); sg = true; }
+        else if (fn == "ul") { hv_ = strtoul(s, &hend, base); }
+        else if (fn == "ll" || fn == "q") { hv_ = (uint64_t)strtoll(s, &hend, base); sg = true; }
+        else if (fn == "ull" || fn == "uq") { hv_ = strtoull(s, &hend, base); }
+        else if (fn == "imax") { hv_ = (uint64_t)strtoimax(s, &hend, base); sg = true; }
+        else if (fn == "umax") { hv_ = strtoumax(s, &hend, base); }
         else { o.result = "bad-op"; return; }
+        int herr = errno;
+        v = call(&end);
+        int ierr = errno;
+        errno = 0;
         long e = end - s;
+        std::string en = ierr == SENT ? "0" : ierr == ERANGE ? "ERANGE" : ierr == EINVAL ? "EINVAL" : std::to_string(ierr);
         if (e < 0 || e > (long)t.size())
         {
             o.result = hexn(v, 16) + " end-out-of-string";
             o.fail("end pointer outside the string");
             return;
         }
-        o.result = hexn(v, 16) + " " + std::to_string(e);
-        // NULL endptr must give the same value
-        uint64_t v0 = fn == "l" ? (uint64_t)igv_strtol(s, 0, base) : fn == "ul" ? igv_strtoul(s, 0, base) : fn == "ll" ? (uint64_t)igv_strtoll(s, 0, base)
-                    : fn == "ull" ? igv_strtoull(s, 0, base) : fn == "imax" ? (uint64_t)igv_strtoimax(s, 0, base) : igv_strtoumax(s, 0, base);
+        o.result = hexn(v, 16) + " " + std::to_string(e) + " " + en;
+        // NULL endptr must give the same value and the same errno
+        uint64_t v0 = call(0);
+        int ierr0 = errno;
+        errno = 0;
         if (v0 != v) o.fail("value differs when endptr is NULL");
+        if (ierr0 != ierr) o.fail("errno differs when endptr is NULL");
         parsed p = ref_parse(t, base);
         uint64_t rv = sg ? ref_signed(p) : ref_unsigned(p);
         size_t re = p.conv ? p.end : 0;
@@ -243,6 +269,19 @@ static void run_op(const std::vector<std::string> &w, const std::string &, out &
             o.fail("ISO 7.22.1.4: expected value " + hexn(rv, 16) + " end " + std::to_string(re) + ", got " + hexn(v, 16) + " end " + std::to_string(e));
         if (hv_ != v || hend - s != e)
             o.fail("host glibc: value " + hexn(hv_, 16) + " end " + std::to_string(hend - s));
+        // errno.  ISO 7.22.1.4 p8: ERANGE iff the correct value is outside the
+        // range; nothing else is stored (7.5: a function never stores 0).
+        // strtoul.c / strtoumax.c also store EINVAL when no conversion is
+        // performed: POSIX allows that ("may fail"), it is tolerated and tagged.
+        {
+            bool range = p.conv && (sg ? (p.neg ? p.mag > ((u128)1 << 63) : p.mag > (u128)INT64_MAX) : p.huge);
+            bool einval_ok = !p.conv && (fn == "ul" || fn == "umax");
+            if (range && ierr != ERANGE) o.fail("ISO 7.22.1.4p8: the value is out of range, errno must be ERANGE, got " + en);
+            if (!range && ierr != SENT && !(einval_ok && ierr == EINVAL)) o.fail("errno written (" + en + ") although the value is representable");
+            if ((herr == ERANGE) != (ierr == ERANGE)) o.fail("host glibc: errno " + std::to_string(herr) + ", got " + en);
+            if (ierr == ERANGE) o.tag("erange");
+            if (ierr == EINVAL) o.tag("einval-noconv");
+        }
         if (!p.conv) o.tag("noconv");
         else
         {
@@ -274,6 +313,21 @@ static void run_op(const std::vector<std::string> &w, const std::string &, out &
         const char *s = (const char *)b.p;
         parsed p = ref_parse(t, 10);
         // (ISO: atol(s) == strtol(s, 0, 10) when the value is representable)
+        if (w[1] == "ll")
+        {
+            // compat/libc/include/stdlib.h: static inline atoll(nptr) = strtoll(nptr, 0, 10)
+            // (the header cannot be included next to the host's; its body is called here)
+            errno = 9999;
+            uint64_t v = (uint64_t)igv_strtoll(s, 0, 10);
+            errno = 0;
+            o.result = hexn(v, 16);
+            uint64_t exp = ref_signed(p);
+            if (exp != v) o.fail("atoll: expected " + hexn(exp, 16));
+            uint64_t h = (uint64_t)atoll(s);
+            if (h != v) o.fail("host glibc atoll: " + hexn(h, 16));
+            if (p.conv) o.tag("atoll");
+            return;
+        }
         bool l = w[1] == "l";
         uint64_t v = l ? (uint64_t)igv_atol(s) : (uint64_t)(uint32_t)igv_atoi(s);
         o.result = hexn(v, l ? 16 : 8);
@@ -290,7 +344,17 @@ static void run_op(const std::vector<std::string> &w, const std::string &, out &
             if (val == (l ? (__int128)INT64_MAX : (__int128)INT_MAX)) o.tag("max-exact");
         }
         else
+        {
+            // atoi beyond int but inside long: (int) of a long, implementation-defined;
+            // glibc's atoi is (int) strtol(...) as well, gcc truncates on both sides
+            if (!l && val >= INT64_MIN && val <= INT64_MAX)
+            {
+                uint64_t h = (uint64_t)(uint32_t)atoi(s);
+                if (h != v) o.fail("host glibc atoi (truncation of a long): " + hexn(h, 8));
+                o.tag("atoi-truncated");
+            }
             o.tag("unrepresentable(undefined-in-ISO)");
+        }
         return;
     }
     if (op == "rnd")
@@ -307,6 +371,60 @@ static void run_op(const std::vector<std::string> &w, const std::string &, out &
         }
         o.result = r.empty() ? "-" : r;
         o.tag("rand");
+        return;
+    }
+    if (op == "rndr")
+    {
+        // rndr <seed> <n>: rand_r on the caller's seed
+        unsigned sd = (unsigned)strtoul(w[1].c_str(), 0, 10);
+        int n = atoi(w[2].c_str());
+        std::string r;
+        for (int i = 0; i < n; i++)
+        {
+            int x = igv_rand_r(&sd);
+            if (x < 0) o.fail("rand_r() < 0");
+            r += (i ? "," : "") + std::to_string(x);
+        }
+        o.result = r.empty() ? "-" : r;
+        o.tag("rand_r");
+        return;
+    }
+    if (op == "ub" || op == "lb")
+    {
+        // ub|lb <esize> <cmpkind> <key> <k0,k1,...>   (array already ordered for cmpkind)
+        bool up = op == "ub";
+        unsigned esize = atoi(w[1].c_str());
+        int kind = atoi(w[2].c_str());
+        int key = atoi(w[3].c_str());
+        std::vector<int> keys = ints(w[4]);
+        size_t n = keys.size();
+        exact_buf a(n * esize, n ? 0 : 16);
+        for (size_t i = 0; i < n; i++) put_elem(a.p + i * esize, esize, keys[i], (unsigned)i);
+        exact_buf kb(sizeof(int));
+        memcpy(kb.p, &key, sizeof key);
+        L = {kind, a.p, n, esize, kb.p, nullptr, "", 0, 0};
+        const uint8_t *r = (const uint8_t *)(up ? igv_upper_bound : igv_lower_bound)(kb.p, a.p, n, esize, bs_compar);
+        // header: lower_bound "Find the smallest element, greater or equals to
+        // specified", upper_bound "... strictly greater than specified" = std::
+        size_t exp = up ? (size_t)(std::upper_bound(keys.begin(), keys.end(), key, [&](int k, int el) { return cmp_keys(kind, k, el) < 0; }) - keys.begin())
+                        : (size_t)(std::lower_bound(keys.begin(), keys.end(), key, [&](int el, int k) { return cmp_keys(kind, k, el) > 0; }) - keys.begin());
+        long off = r - a.p;
+        if (off < 0 || off > (long)(n * esize) || off % (long)esize != 0)
+        {
+            o.result = "outside(" + std::to_string(off) + ")";
+            o.fail("returned pointer is outside [base, base + nmemb*size] (byte offset " + std::to_string(off) + ")");
+        }
+        else
+        {
+            size_t i = (size_t)off / esize;
+            o.result = std::to_string(i);
+            if (i != exp) o.fail(std::string(up ? "std::upper_bound" : "std::lower_bound") + " gives index " + std::to_string(exp) + ", got " + std::to_string(i));
+        }
+        if (!L.bad.empty()) o.fail(L.bad);
+        if (n == 0) o.tag("empty");
+        o.tag(exp == 0 ? "bound-first" : exp == n ? "bound-end" : "bound-inside");
+        if (std::set<int>(keys.begin(), keys.end()).size() < n) o.tag("dups");
+        if (n >= 8) o.tag("deep");
         return;
     }
     if (op == "qs")
@@ -423,7 +541,7 @@ static void st(const char *fn, int base, const std::string &text)
     std::string t = text.substr(0, text.find('\0'));
     printf("st %s %d %s\n", fn, base, hex(t).c_str());
 }
-static const char *FNS[6] = {"l", "ul", "ll", "ull", "imax", "umax"};
+static const char *FNS[8] = {"l", "ul", "ll", "ull", "imax", "umax", "q", "uq"};
 static const int BASES[36] = {0, 2, 3, 4, 5, 6, 7, 8, 9, 10, 11, 12, 13, 14, 15, 16, 17, 18, 19, 20, 21, 22, 23, 24, 25, 26, 27, 28, 29, 30, 31, 32, 33, 34, 35, 36};
 
 static std::string tail_for(int eb, rng &r)
@@ -446,7 +564,7 @@ static void gen_strto(rng &r, bool th)
 {
     const u128 SMAX = (u128)INT64_MAX, UMAX = (u128)UINT64_MAX;
     // (1) overflow boundaries of every function in every base
-    for (int f = 0; f < 6; f++)
+    for (int f = 0; f < 8; f++)
         for (int bi = 0; bi < 36; bi++)
         {
             int base = BASES[bi];
@@ -556,6 +674,47 @@ static void gen_strto(rng &r, bool th)
             }
         }
     }
+    // (5b) all strings over the critical alphabet " \t-+0xX19aAzZ8g":
+    //   length <= 3: every entry point (8) x bases {0, 16} + one of {10, 36, 8, 2, 11, 35} in rotation
+    //   length 4: every string once per base {0, 16}, entry point in rotation (thorough: every entry point)
+    //   length 5: a random sample (thorough: a 15x larger one)
+    {
+        static const char al[] = {' ', '\t', '-', '+', '0', 'x', 'X', '1', '9', 'a', 'A', 'z', 'Z', '8', 'g'};
+        const int A = sizeof al;
+        static const int other[6] = {10, 36, 8, 2, 11, 35};
+        unsigned rot = 0;
+        for (int len = 0; len <= 4; len++)
+        {
+            int total = 1;
+            for (int i = 0; i < len; i++) total *= A;
+            for (int code = 0; code < total; code++)
+            {
+                std::string t;
+                for (int i = 0, c = code; i < len; i++, c /= A) t += al[c % A];
+                if (len <= 3)
+                    for (int f = 0; f < 8; f++)
+                    {
+                        st(FNS[f], 0, t);
+                        st(FNS[f], 16, t);
+                        st(FNS[f], other[rot++ % 6], t);
+                    }
+                else if (th)
+                    for (int f = 0; f < 8; f++) st(FNS[f], (code + f) % 2 ? 0 : 16, t);
+                else
+                {
+                    st(FNS[rot % 8], 0, t);
+                    st(FNS[(rot + 3) % 8], 16, t);
+                    rot++;
+                }
+            }
+        }
+        for (int k = 0; k < (th ? 300000 : 20000); k++)
+        {
+            std::string t;
+            for (int i = 0; i < 5; i++) t += al[r.below(A)];
+            st(FNS[r.below(8)], r.chance(70) ? (r.chance(50) ? 0 : 16) : BASES[r.below(36)], t);
+        }
+    }
     // (6) hand-picked
     static const std::vector<std::string> pick = {"", " ", "-", "+", "0x", "0X", "0xg", "0xG", "-0x", "-0xz", "+0x", "0x-1", "0x+1", "0x 1", "- 1", "+-1", "-+1", "--1",
                                                   "0", "00", "08", "09", "0b1", "0x0x1", "0x0", "0x00x", " \t\n\v\f\r1", "\x1c" "1", "\x85" "1", "\xa0" "1",
@@ -564,7 +723,7 @@ static void gen_strto(rng &r, bool th)
                                                   "0x7fffffffffffffff", "0x8000000000000000", "-0x8000000000000000", "-0x8000000000000001", "0xffffffffffffffff", "0x10000000000000000",
                                                   "0777777777777777777777", "01000000000000000000000", "-01000000000000000000000", "01777777777777777777777", "02000000000000000000000",
                                                   "1x", "1X", "0x1x", "x1", "0xx", "00x1", "0 x1", "zz", "ZZ", "Zz", "-zz", "1z", "z1"};
-    for (int f = 0; f < 6; f++)
+    for (int f = 0; f < 8; f++)
         for (auto &t : pick)
             for (int base : {0, 16, 10, 8, 2, 36, 35, 11})
                 st(FNS[f], base, t);
@@ -596,6 +755,38 @@ static void gen_strto(rng &r, bool th)
             std::string t = std::string(1, (char)c) + "7";
             printf("at l %s\nat i %s\n", hex(t).c_str(), hex(std::string("5") + t).c_str());
         }
+        // atoll = strtoll(s, 0, 10): defined for every text (clamps), so the overflowing ones too
+        for (auto &t : ts)
+        {
+            std::string tt = t.substr(0, t.find('\0'));
+            printf("at ll %s\n", hex(tt).c_str());
+        }
+        for (const char *t : {"9223372036854775808", "-9223372036854775809", "99999999999999999999", "-99999999999999999999", " +9223372036854775807x", "18446744073709551616"})
+            printf("at ll %s\n", hex(std::string(t)).c_str());
+        // every string of length <= 4 over " \t-+019a" (white space, signs, digits, a stopper): all representable
+        {
+            static const char al[] = {' ', '\t', '-', '+', '0', '1', '9', 'a'};
+            const int A = sizeof al;
+            for (int len = 0; len <= 4; len++)
+            {
+                int total = 1;
+                for (int i = 0; i < len; i++) total *= A;
+                for (int code = 0; code < total; code++)
+                {
+                    std::string t;
+                    for (int i = 0, c = code; i < len; i++, c /= A) t += al[c % A];
+                    printf("at %s %s\n", code % 3 == 0 ? "l" : code % 3 == 1 ? "i" : "ll", hex(t).c_str());
+                    if (len <= 3) printf("at l %s\nat i %s\n", hex(t).c_str(), hex(t).c_str());
+                }
+            }
+        }
+        // atoi beyond int, inside long (truncation) with white space and signs
+        for (int i = 0; i < (th ? 400 : 60); i++)
+        {
+            u128 m = (u128)INT_MAX + 1 + (r.chance(50) ? r.below(5) : (r.next() >> (1 + r.below(32))));
+            if (m > (u128)INT64_MAX) m = (u128)INT64_MAX;
+            printf("at i %s\n", hex(r.pick(SPACES) + r.pick(SIGNS) + render(m, 10, 0, r) + tail_for(10, r)).c_str());
+        }
     }
 }
 
@@ -608,7 +799,7 @@ static std::string join(const std::vector<int> &v)
 }
 static unsigned esz(rng &r)
 {
-    static const std::vector<unsigned> fav = {1, 2, 3, 4, 7, 8, 12, 16, 31, 32};
+    static const std::vector<unsigned> fav = {1, 2, 3, 4, 7, 8, 12, 16, 31, 32, 33, 64};
     return r.chance(50) ? r.pick(fav) : (unsigned)r.range(1, 32);
 }
 
@@ -668,6 +859,24 @@ static void gen_qsort(rng &r, bool th)
             for (auto &x : v) x = (int)r.below(6);
             printf("qs %u %d %u %s\n", e, (int)r.below(5), (unsigned)r.next(), join(v).c_str());
         }
+    // (5) element sizes 1,2,3,4,7,8,16,31,32,33,64 (beyond the 32 of the property text: the
+    // swap buffer and the pivot copy are VLAs of `size` bytes) x lengths around the network /
+    // partition switch and larger, few distinct keys (many duplicates), every comparator
+    for (unsigned e : {1u, 2u, 3u, 4u, 7u, 8u, 16u, 31u, 32u, 33u, 64u})
+        for (int n : {0, 1, 2, 3, 4, 5, 6, 7, 8, 9, 12, 17, 33, 64, 100})
+            for (int rep = 0; rep < (th ? 4 : 1); rep++)
+            {
+                std::vector<int> v(n);
+                int m = (int)r.pick(std::vector<int>{1, 2, 2, 3, 3, 4, 7});
+                for (auto &x : v) x = (int)r.below(m);
+                if (r.chance(20)) std::sort(v.begin(), v.end());
+                printf("qs %u %d %u %s\n", e, (int)r.below(5), (unsigned)r.next(), join(v).c_str());
+            }
+    // rand_r: the caller's seed, including the ones whose product with the
+    // multiplier does not fit a signed long (> 557 434 000)
+    for (unsigned sd : {0u, 1u, 557433999u, 557434000u, 557434001u, 2147483647u, 2147483648u, 4294967295u, 314567651u})
+        printf("rndr %u %d\n", sd, 6);
+    for (int i = 0; i < (th ? 100 : 20); i++) printf("rndr %u %d\n", (unsigned)r.next(), (int)r.range(1, 20));
     // rand.c itself
     for (int i = 0; i < (th ? 200 : 40); i++)
         printf("rnd %u %d\n", i < 5 ? (unsigned)i : (unsigned)r.next(), (int)r.range(1, 40));
@@ -725,6 +934,58 @@ static void gen_bsearch(rng &r, bool th)
     for (unsigned e = 1; e <= 32; e++) printf("bs %u %d %d -\n", e, (int)(e % 5), (int)r.below(9));
 }
 
+static void gen_bounds(rng &r, bool th)
+{
+    static const std::vector<unsigned> sizes = {1, 2, 3, 4, 7, 8, 16, 31, 32, 33, 64};
+    // (1) every non-decreasing array over {1,3,5} up to length 7 (thorough 9), every key 0..6, both functions
+    unsigned rot = 0;
+    for (int len = 0; len <= (th ? 9 : 7); len++)
+    {
+        int total = 1;
+        for (int i = 0; i < len; i++) total *= 3;
+        for (int code = 0; code < total; code++)
+        {
+            std::vector<int> v;
+            for (int i = 0, c = code; i < len; i++, c /= 3) v.push_back(1 + 2 * (c % 3));
+            if (!std::is_sorted(v.begin(), v.end())) continue;
+            for (int key = 0; key <= 6; key++)
+            {
+                printf("ub %u 0 %d %s\n", sizes[rot % sizes.size()], key, join(v).c_str());
+                printf("lb %u 0 %d %s\n", sizes[(rot + 5) % sizes.size()], key, join(v).c_str());
+                rot++;
+            }
+        }
+    }
+    // (2) lengths 0..40 (thorough ..120), every comparator, duplicate-rich, keys from below the minimum to above the maximum
+    int maxn = th ? 120 : 40;
+    for (int rep = 0; rep < (th ? 4 : 1); rep++)
+        for (int n = 0; n <= maxn; n++)
+            for (int kind = 0; kind < 5; kind++)
+            {
+                std::vector<int> v(n);
+                int m = (int)r.pick(std::vector<int>{1, 2, 3, 5, n ? n : 1, 2 * n + 1, 12, 40});
+                for (auto &x : v) x = 2 + ((int)r.below(m) * (r.chance(50) ? 2 : 1)) % 252;
+                order_for(v, kind, r);
+                int lo = 0, hi = 3;
+                for (int x : v) hi = std::max(hi, x + 2);
+                unsigned e = r.pick(sizes);
+                for (int key = lo; key <= hi; key++)
+                    if (th || hi < 30 || r.chance(40) || std::find(v.begin(), v.end(), key) != v.end())
+                    {
+                        printf("ub %u %d %d %s\n", e, kind, key, join(v).c_str());
+                        printf("lb %u %d %d %s\n", e, kind, key, join(v).c_str());
+                    }
+            }
+    // (3) nmemb 0 and 1 at every element size (base of the empty array = one-past-the-end of an allocation)
+    for (unsigned e : sizes)
+        for (int kind = 0; kind < 5; kind++)
+        {
+            printf("ub %u %d %d -\nlb %u %d %d -\n", e, kind, (int)r.below(9), e, kind, (int)r.below(9));
+            for (int key : {3, 4, 5})
+                printf("ub %u %d %d 4\nlb %u %d %d 4\nbs %u %d %d 4\n", e, kind, key, e, kind, key, e, kind, key);
+        }
+}
+
 static void gen(rng &r, const std::string &tier)
 {
     bool th = tier == "thorough";
@@ -732,6 +993,7 @@ static void gen(rng &r, const std::string &tier)
     gen_strto(r, th);
     gen_qsort(r, th);
     gen_bsearch(r, th);
+    gen_bounds(r, th);
 }
 
 int main(int argc, char **argv) { return main_(argc, argv, gen, run_op); }
